@@ -44,6 +44,16 @@ def run(F, R):
     # exactly extra|direction for every previous content of the slot (shared with C01.F1)
     from .C01 import share_fn_rule
     share_fn_rule(F, R, 'K8')
+    # K9: a completion poll with a token that is not next (or when nothing is ready) changes nothing, and a successful
+    # one consumes exactly the head of the used ring - otherwise out-of-order polling loses another request's completion
+    # (shared with C03.E1/E2)
+    from . import C03 as _c3
+    _by = {}
+    for _k, _v in roles.items():
+        _by.setdefault(_v, []).append(_k)
+    _lf = _c3.last_used_field(F, M, _by['can_pop'][0]) if 'can_pop' in _by else None
+    if _lf and 'pop_used' in _by:
+        _c3.e1_e2_pop(F, RuleProxy(R, {'E1': 'K9', 'E2': 'K9'}), M, _by['pop_used'][0], _lf)
     from .C03 import e6_relink
     for _k, _v in roles.items():
         if _v == 'pop_used':
